@@ -676,7 +676,15 @@ class Machine:
             if kind == 'FloatToInt':
                 return ('i', T.mk('f2i', v[1]))
             if kind == 'IntToInt':
-                return v
+                # widening to a 64-bit unsigned target is the identity on the (non-negative) values the crate uses; a narrower or signed
+                # target wraps: v mod 2^k, re-centred for signed types (two's complement)
+                bits_ = {'u8': 8, 'u16': 16, 'u32': 32, 'i8': 8, 'i16': 16, 'i32': 32, 'i64': 64, 'isize': 64}.get(ty)
+                if v[0] != 'i' or bits_ is None:
+                    return v
+                if ty.startswith('u'):
+                    return ('i', T.mk('irem', v[1], T.iconst(2 ** bits_)))
+                half = T.iconst(2 ** (bits_ - 1))
+                return ('i', T.mk('isub', T.mk('irem', T.mk('iadd', v[1], half), T.iconst(2 ** bits_)), half))
             if kind in ('PointerCoercion', 'Transmute', 'PtrToPtr'):
                 return v
             raise Stuck('cast ' + rhs)
